@@ -155,8 +155,8 @@ static std::string cmdStart(Env& env, const std::vector<std::string>& f) {
         sc.getRootMoves(*emt.moves, rm, emt.maxDepth);
         for (size_t i = 0; i < rm.size(); i++) {
             if (i) out << ' ';
-            out << mv(rm[i].move);
-            if (rm[i].depth != 0 || rm[i].nodes != 0 || rm[i].knownLoss || !rm[i].pv.empty() || rm[i].move.score() != 0)
+            out << mv(rm[i].move) << ':' << rm[i].move.score();
+            if (rm[i].depth != 0 || rm[i].nodes != 0 || rm[i].knownLoss || !rm[i].pv.empty() || rm[i].alpha != 0 || rm[i].beta != 0)
                 out << "!notfresh";
         }
     }
@@ -250,7 +250,7 @@ static std::string cmdPV(Env& env, const std::vector<std::string>& f) {
     Position pos(root);
     UndoInfo ui;
     pos.makeMove(first, ui);
-    for (int i = 0; i < 80; i++) {
+    for (int i = 0; i < 30; i++) {
         if (i) out << ';';
         MoveList lm = legalMoves(pos);
         TranspositionTable::TTEntry ent;
